@@ -16,7 +16,7 @@ REACTIONS = {
     'r_gdelay': (['A'], [], 'massaction', {'k': 0.7}, 'gaussian', [], ['B'], {'mean': 0.3, 'std': 0.2}),
 }
 OPS = ['species', 'r_ma', 'r_hill', 'r_gen', 'r_delay', 'r_gdelay', 'param', 'rule', 'rule_dt', 'setp', 'setps', 'sets', 'init', 'iface', 'iface_safe',
-       'sim_det', 'sim_ssa', 'sim_safe', 'sim_vol', 'sim_delay', 'sim_iface', 'sim_iface_det', 'other_det', 'seed']
+       'sim_det', 'sim_ssa', 'sim_safe', 'sim_vol', 'sim_delay', 'sim_delayvol', 'sim_iface', 'sim_iface_det', 'other_det', 'seed']
 
 
 class Shadow:
@@ -111,7 +111,8 @@ def apply(m, sh, op, ctx_state, c, case):
         unset0 = lambda d: {k: (0.0 if float(v) == -1.0 else float(v)) for k, v in d.items()}   # -1 is the 'never set' marker, defaulted to 0
         before = (unset0(m.get_species_dictionary()), dict(m.get_parameter_dictionary()))
         kw = {'sim_det': dict(stochastic=False), 'sim_ssa': dict(stochastic=True), 'sim_safe': dict(stochastic=True, safe=True),
-              'sim_vol': dict(stochastic=True, volume=2.0), 'sim_delay': dict(stochastic=True, delay=True)}.get(op)
+              'sim_vol': dict(stochastic=True, volume=2.0), 'sim_delay': dict(stochastic=True, delay=True),
+              'sim_delayvol': dict(stochastic=True, delay=True, volume=2.0)}.get(op)
         with warnings.catch_warnings():
             warnings.simplefilter('ignore')
             if op in ('sim_iface', 'sim_iface_det'):
@@ -164,7 +165,7 @@ def observe(m):
     with warnings.catch_warnings():
         warnings.simplefilter('ignore')
         for name, kw in (('ssa', dict(stochastic=True)), ('safe', dict(stochastic=True, safe=True)), ('volume', dict(stochastic=True, volume=2.0)),
-                         ('delay', dict(stochastic=True, delay=True))):
+                         ('delay', dict(stochastic=True, delay=True)), ('delayvol', dict(stochastic=True, delay=True, volume=2.0))):
             for seed in (11 + SEED, 4242 + 7 * SEED):
                 br.py_seed_random(seed)
                 r = py_simulate_model(TIMES, Model=m, return_dataframe=False, **kw)
@@ -235,7 +236,7 @@ def check(c, hist):
     except Exception as e:
         c.violation('C08/observe-exception', 'observing after %s raised %r' % (list(hist), e), case)
         return
-    for name in ('ssa', 'safe', 'volume', 'delay'):
+    for name in ('ssa', 'safe', 'volume', 'delay', 'delayvol'):
         if o1['%s/seedA' % name] != o1['%s/seedA-again' % name]:
             c.violation('C08/not-repeatable/%s' % name, 'seeding with the same seed and simulating twice gives different %s output' % name, case)
     if o1['det'] != o1['det-again']:
@@ -275,7 +276,7 @@ def run(ctx):
     ctx.rule = ('E3: every operation sequence up to the length bound over {add species; add a mass-action / proportional-Hill (named parameters) / '
                 'general / fixed-delay / Gaussian-delay reaction; add a parameter; add a species-assigning repeated rule; add a dt counter rule (not idempotent); set a parameter; set a species value; '
                 'py_initialize; build and keep a plain / safe interface; simulate through py_simulate_model in deterministic, SSA, safe, volume '
-                'and delay mode; simulate (SSA and deterministic) through the kept interface while it is current; integrate an unrelated model in between; seed} is applied to a real Model while a shadow '
+                'delay and delay+volume mode; simulate (SSA and deterministic) through the kept interface while it is current; integrate an unrelated model in between; seed} is applied to a real Model while a shadow '
                 'definition is maintained. After every history: seeded SSA / safe / volume / delay trajectories (2 seeds + a scripted stream), '
                 'the deterministic trajectory, dictionaries and both matrices must equal those of a model built at once from the shadow '
                 'definition (bit-equal; deterministic rounded to 1e-9); seeding and simulating twice must agree; the dictionaries read before '
